@@ -250,7 +250,9 @@ pub fn generate(rng: &mut Rng, _tier: Tier) -> Value {
         _ => {
             let unbounded = rng.chance(1, 5);
             let d = if unbounded { 0 } else { rng.range(1, if dim == "stack" { 120 } else { 48 }) };
-            let stop = if unbounded { "false".to_string() } else { format!("d>={d}") };
+            // "unbounded" = far beyond any limit the scenario sets: if the limit under test is not
+            // enforced the recursion still ends, and the run is reported instead of exhausting memory
+            let stop = if unbounded { "d>=300000".to_string() } else { format!("d>={d}") };
             let def = match rng.below(16) {
                 // recursion through other call paths: each has its own entry point into the engine's
                 // call machinery and must be covered by the recursion and stack limits as well
